@@ -18,14 +18,20 @@ from whoosh.filedb.filestore import RamStorage  # noqa: E402
 # schema, index
 
 def make_schema():
+    from decimal import Decimal
     return fields.Schema(
+        price=fields.NUMERIC(Decimal, decimal_places=2, stored=True), un=fields.NUMERIC(int, bits=16, signed=False),
+        sn=fields.NUMERIC(int, sortable=True), sf=fields.NUMERIC(float, bits=32, sortable=True),
+        ws=fields.NGRAMWORDS(minsize=2, maxsize=3, at="start"), kc=fields.KEYWORD(commas=True, scorable=True),
+        il=fields.IDLIST(), ts=fields.TEXT(sortable=True, phrase=False), tl=fields.TEXT(lang="de"),
         t=fields.TEXT(stored=True), k=fields.KEYWORD(stored=True, lowercase=True), i=fields.ID(stored=True),
         n=fields.NUMERIC(int, stored=True), f=fields.NUMERIC(float), d=fields.DATETIME(stored=True),
         b=fields.BOOLEAN(stored=True), g=fields.NGRAM(minsize=2, maxsize=3), w=fields.NGRAMWORDS(minsize=2, maxsize=3),
         p=fields.TEXT(phrase=False), u=fields.TEXT(multitoken_query="or"), s=fields.STORED)
 
 
-FIELD_NAMES = ["t", "k", "i", "n", "f", "d", "b", "g", "w", "p", "u"]
+FIELD_NAMES = ["t", "k", "i", "n", "f", "d", "b", "g", "w", "p", "u", "price", "un", "sn", "sf", "ws", "kc", "il", "ts",
+               "tl"]
 WORDS = ["alfa", "bravo", "charlie", "delta", "echo", "foxtrot", "golf", "hotel", "india", "juliet",
          "kilo", "lima"]
 
@@ -39,7 +45,9 @@ def make_docs():
         docs.append(dict(
             t=u" ".join(ws), k=u" ".join(ws[:2]), i=u"id%d" % j, n=j * 3 - 10, f=j / 4.0,
             d=datetime.datetime(2010 + j % 5, 1 + j % 12, 1 + j % 28), b=bool(j % 2),
-            g=u"".join(ws[:1]), w=u" ".join(ws[:2]), p=u" ".join(ws), u=u" ".join(ws), s=u"x"))
+            g=u"".join(ws[:1]), w=u" ".join(ws[:2]), p=u" ".join(ws), u=u" ".join(ws), s=u"x",
+            price=u"%d.%02d" % (j, (j * 37) % 100), un=j * 100, sn=j - 5, sf=j / 8.0, ws=u" ".join(ws[:2]),
+            kc=u", ".join(ws[:2]), il=u" ".join(ws[:2]), ts=u" ".join(ws), tl=u" ".join(ws)))
     return docs
 
 
@@ -120,6 +128,13 @@ CONFIGS = {
     "default-w": lambda: _mk("w"),
     "default-p": lambda: _mk("p"),
     "default-u": lambda: _mk("u"),
+    "default-price": lambda: _mk("price"),
+    "default-un": lambda: _mk("un"),
+    "default-sf": lambda: _mk("sf"),
+    "default-ws": lambda: _mk("ws"),
+    "default-kc": lambda: _mk("kc"),
+    "multifield-num": lambda: qparser.MultifieldParser(["t", "price", "un", "sf"], make_schema()),
+    "dismax-num": lambda: qparser.DisMaxParser({"t": 1.0, "price": 2.0, "sn": 0.5}, make_schema()),
     "or": lambda: _mk(group=syntax.OrGroup),
     "or-scaled": lambda: _mk(group=syntax.OrGroup.factory(0.9)),
     "noschema": lambda: _mk(schema=False),
@@ -484,16 +499,19 @@ OP_LEVEL = {"and": 2, "or": 3, "andnot": 4, "andmaybe": 5, "require": 6}
 OP_TEXT = {"and": "AND", "or": "OR", "andnot": "ANDNOT", "andmaybe": "ANDMAYBE", "require": "REQUIRE"}
 
 
-WILD_ATOMS = ["al*", "*fa", "b?avo", "c*l?e", "*o*", "?????", "de*a", "*"]
+WILD_ATOMS = ["al*", "*fa", "b?avo", "c*l?e", "*o*", "?????", "de*a", "*", "b*a*", "c*r*e*", "a*f*", "*l*a", "j*l*t",
+              "g*l?", "e*o*", "k*l*", "*i*i*", "f*x*t*", "h*t*l", "l**", "d*l*a*"]
+CMP_RELS = ["<", ">", "<=", ">=", "=<", "=>"]
+CMP_FIELDS = {"n": (-10, 59, 1), "sn": (-5, 18, 1), "f": (0, 6, 0.25)}
 
 
-def gen_expr(rng, maxlevel, depth=0, rich=False):
+def gen_expr(rng, maxlevel, depth=0, rich=False, gtlt=False):
     """Random well-formed expression of binding level <= maxlevel, as nested tuples:
     ("atom", text) | ("paren", [e...]) | ("not", e) | ("op", g, [e...]); with `rich` also
     ("field", name, e) around an atom or a parenthesised group, and wildcard atoms."""
     if rich:
         e = gen_expr(rng, maxlevel, depth, False)
-        return _enrich(rng, e)
+        return _enrich(rng, e, gtlt)
     levels = [0, 0, 0]
     if maxlevel >= 1:
         levels += [1]
@@ -515,21 +533,103 @@ def gen_expr(rng, maxlevel, depth=0, rich=False):
     return ("op", g, [gen_expr(rng, lv - 1, depth + 1) for _ in range(n)])
 
 
-def _enrich(rng, e):
+def _cmp_atom(rng):
+    """A comparison on a numeric field, as GtLtPlugin reads it: field:<rel><number>."""
+    fld = rng.choice(sorted(CMP_FIELDS))
+    lo, hi, step = CMP_FIELDS[fld]
+    v = lo + step * rng.randint(0, int((hi - lo) / step))
+    txt = ("%g" % v) if step != 1 else ("%d" % v)
+    return ("field", fld, ("atom", rng.choice(CMP_RELS) + txt))
+
+
+RANGE_FIELDS = ["d", "d", "d", "n", "sn", "f", "t", "k"]
+
+
+def _range_end(rng, fld):
+    if fld == "d":
+        # a (partial) date taken from / next to a stored document's date, so that period
+        # boundaries are hit: YYYY, YYYYMM, YYYYMMDD, with or without dashes
+        j = rng.randint(0, 23)
+        y, m, d = 2010 + j % 5 + rng.choice((0, 0, 0, -1, 1)), 1 + j % 12, 1 + j % 28
+        form = rng.choice(("y", "y", "y", "ym", "ym", "ymd", "y-m", "y-m-d"))
+        return {"y": "%04d" % y, "ym": "%04d%02d" % (y, m), "ymd": "%04d%02d%02d" % (y, m, d),
+                "y-m": "%04d-%02d" % (y, m), "y-m-d": "%04d-%02d-%02d" % (y, m, d)}[form]
+    if fld in CMP_FIELDS:
+        lo, hi, step = CMP_FIELDS[fld]
+        v = lo + step * rng.randint(0, int((hi - lo) / step))
+        return ("%g" % v) if step != 1 else ("%d" % v)
+    # some ends contain the letters "to": only a TO that stands on its own separates the ends
+    return rng.choice(WORDS + ["tomato", "photo", "motto"])
+
+
+def range_text(a, b, startexcl, endexcl):
+    return "%s%sTO%s%s" % ("{" if startexcl else "[", (a + " ") if a else "", (" " + b) if b else "",
+                           "}" if endexcl else "]")
+
+
+def _range_atom(rng, fld=None, fielded=True):
+    """A range on a date, numeric or text field with any of the four bracket combinations;
+    one end may be open."""
+    fld = fld or rng.choice(RANGE_FIELDS)
+    a, b = _range_end(rng, fld), _range_end(rng, fld)
+    if rng.random() < 0.75:
+        ka, kb = (a.replace("-", ""), b.replace("-", "")) if fld == "d" else (a, b)
+        if (fld in CMP_FIELDS and float(ka) > float(kb)) or (fld not in CMP_FIELDS and ka > kb):
+            a, b = b, a
+    r = rng.random()
+    if r < 0.1:
+        a = ""
+    elif r < 0.2:
+        b = ""
+    atom = ("atom", range_text(a, b, rng.random() < 0.5, rng.random() < 0.5))
+    return ("field", fld, atom) if fielded else atom
+
+
+def parse_range_atom(text):
+    """(start or None, end or None, startexcl, endexcl) of a range atom, else None."""
+    import re
+    m = re.match(r"^([\[{])\s*(.*?)\s*TO\s*(.*?)\s*([\]}])$", text)
+    if not m:
+        return None
+    return (m.group(2) or None, m.group(3) or None, m.group(1) == "{", m.group(4) == "}")
+
+
+def date_period(s):
+    """First and last instant of the period a partial date YYYY[MM[DD]] stands for."""
+    s = s.replace("-", "")
+    y = int(s[:4])
+    if len(s) >= 8:
+        lo = datetime.datetime(y, int(s[4:6]), int(s[6:8]))
+        nxt = lo + datetime.timedelta(days=1)
+    elif len(s) >= 6:
+        mo = int(s[4:6])
+        lo = datetime.datetime(y, mo, 1)
+        nxt = datetime.datetime(y + (mo == 12), mo % 12 + 1, 1)
+    else:
+        lo = datetime.datetime(y, 1, 1)
+        nxt = datetime.datetime(y + 1, 1, 1)
+    return lo, nxt - datetime.timedelta(microseconds=1)
+
+
+def _enrich(rng, e, gtlt=False):
     if e[0] == "atom":
-        if not e[1].startswith('"') and rng.random() < 0.2:
+        if gtlt and rng.random() < 0.3:
+            return _cmp_atom(rng)
+        if rng.random() < 0.1:
+            return _range_atom(rng)
+        if not e[1].startswith('"') and rng.random() < 0.25:
             e = ("atom", rng.choice(WILD_ATOMS))
         if rng.random() < 0.25:
             return ("field", rng.choice(["t", "k", "k"]), e)
         return e
     if e[0] == "paren":
-        p = ("paren", [_enrich(rng, x) for x in e[1]])
+        p = ("paren", [_enrich(rng, x, gtlt) for x in e[1]])
         if rng.random() < 0.3:
             return ("field", rng.choice(["t", "k", "k"]), p)
         return p
     if e[0] == "not":
-        return ("not", _enrich(rng, e[1]))
-    return ("op", e[1], [_enrich(rng, x) for x in e[2]])
+        return ("not", _enrich(rng, e[1], gtlt))
+    return ("op", e[1], [_enrich(rng, x, gtlt) for x in e[2]])
 
 
 def has_field(e):
@@ -557,8 +657,9 @@ def resolve_fields(e, field=None):
 
 
 def has_wild(e):
+    """Has an atom that is not a plain word or phrase (wildcard pattern or range)."""
     if e[0] == "atom":
-        return any(c in e[1] for c in "*?")
+        return any(c in e[1] for c in "*?") or e[1][:1] in ("[", "{")
     if e[0] in ("not",):
         return has_wild(e[1])
     if e[0] == "field":
@@ -566,8 +667,42 @@ def has_wild(e):
     return any(has_wild(x) for x in (e[1] if e[0] == "paren" else e[2]))
 
 
+def parse_cmp(text):
+    for rel in ("<=", ">=", "=<", "=>", "<", ">"):
+        if text.startswith(rel):
+            try:
+                return rel, float(text[len(rel):])
+            except ValueError:
+                return None
+    return None
+
+
 def direct_leaf_query(text, field):
     """A leaf's query built without the parser."""
+    r = parse_range_atom(text)
+    if r is not None:
+        a, b, sx, ex = r
+        if field == "d":
+            from whoosh.util.times import datetime_to_long
+            if a is not None:
+                lo, hi = date_period(a)
+                a = datetime_to_long(hi if sx else lo)
+            if b is not None:
+                lo, hi = date_period(b)
+                b = datetime_to_long(lo if ex else hi)
+            return query.NumericRange(field, a, b, sx, ex)
+        if field in CMP_FIELDS:
+            conv = int if CMP_FIELDS[field][2] == 1 else float
+            return query.NumericRange(field, None if a is None else conv(a), None if b is None else conv(b), sx, ex)
+        return query.TermRange(field, a, b, sx, ex)
+    c = parse_cmp(text)
+    if c is not None and field in CMP_FIELDS:
+        rel, v = c
+        if CMP_FIELDS[field][2] == 1:
+            v = int(v)
+        if rel in ("<", "<=", "=<"):
+            return query.NumericRange(field, None, v, False, rel == "<")
+        return query.NumericRange(field, v, None, rel == ">", False)
     if text.startswith('"'):
         return query.Phrase(field, text[1:-1].split())
     if any(c in text for c in "*?"):
@@ -639,6 +774,33 @@ def expr_shape(e):
 def leaf_matches(doc, text, field):
     """Independent oracle for a leaf on one of make_docs(): word, phrase or wildcard pattern."""
     import fnmatch
+    r = parse_range_atom(text)
+    if r is not None:
+        a, b, sx, ex = r
+        if field == "d":
+            # a partial date is a period: `[`/`]` take the period in, `{`/`}` leave all of it out
+            x = doc["d"]
+            if a is not None:
+                lo, hi = date_period(a)
+                if not (x > hi if sx else x >= lo):
+                    return False
+            if b is not None:
+                lo, hi = date_period(b)
+                if not (x < lo if ex else x <= hi):
+                    return False
+            return True
+        if field in CMP_FIELDS:
+            xs = [doc[field]]
+            a = None if a is None else float(a)
+            b = None if b is None else float(b)
+        else:
+            xs = (doc[field] or u"").split()
+        return any((a is None or (x > a if sx else x >= a)) and (b is None or (x < b if ex else x <= b)) for x in xs)
+    c = parse_cmp(text)
+    if c is not None and field in CMP_FIELDS:
+        rel, v = c
+        x = doc[field]
+        return {"<": x < v, ">": x > v, "<=": x <= v, "=<": x <= v, ">=": x >= v, "=>": x >= v}[rel]
     toks = (doc[field] or u"").split()
     if text.startswith('"'):
         ws = text[1:-1].split()
